@@ -151,13 +151,13 @@ def sub_property(inp):
         raise Violation('property', f'canonical_form:{core.exc_sig(r)}', inp, f'canonical_form failed on the accepted property {inp["text"]!r}: {type(r).__name__}: {str(r)[:300]}')
     if not (isinstance(r, list) and r and all(astx.cname(x) == 'HplProperty' for x in r)):
         raise Violation('property', 'canonical_form:kind', inp, f'canonical_form returned {r!r}'[:300])
-    for role in ('activator', 'terminator'):
-        evn = getattr(p.scope, role)
+    topics = inp.get('topics') or {}
+    aliases = {a: topics[t] for a, t in (inp.get('alias_topic') or {}).items() if t in topics}
+    for evn in (p.scope.activator, p.scope.terminator, p.pattern.trigger, p.pattern.behaviour):
         for se in astx.flat_events(evn):
-            check_expr_functions(se.predicate, dict(inp, text=str(se.predicate)), sub='property', vinp=inp)
-    for evn in (p.pattern.trigger, p.pattern.behaviour):
-        for se in astx.flat_events(evn):
-            check_expr_functions(se.predicate, dict(inp, text=str(se.predicate)), sub='property', vinp=inp)
+            # schemas (when the generator supplied them) give the allowed-raise oracle real valuations
+            pinp = dict(inp, text=str(se.predicate), this=topics.get(str.__str__(se.name)), aliases=aliases)
+            check_expr_functions(se.predicate, pinp, sub='property', vinp=inp)
     return p
 
 
@@ -282,7 +282,8 @@ def gen_expr_case(ch):
 
 def gen_property_case(ch):
     m, info = gen.properties(ch, depth=ch.int(1, 3), chaos=ch.pick([0, 0, 6]))
-    return {'text': mast.render(m), 'm': m}
+    alias_topic = {e[2]: e[1] for _r, evn in mast.event_positions(m) for e in mast.simple_events(evn) if e[2]}
+    return {'text': mast.render(m), 'm': m, 'topics': info['topics'], 'alias_topic': alias_topic}
 
 
 def gen_f13_case(ch):
